@@ -57,8 +57,12 @@ def correspond(run, corr, profiles, n_quick, n_thorough):
     for k in range(n):
         prof = profiles[k % len(profiles)]
         lines.append(g.history(run.rng.choice([8, 20, 40, 60]), prof))
-    impl = run_impl(lines)
-    model = vf.run_driver(lines)
+    # the Lean driver answers the same lines while the real objects are being driven
+    from concurrent.futures import ThreadPoolExecutor
+    with ThreadPoolExecutor(1) as ex:
+        fut = ex.submit(vf.run_driver, lines)
+        impl = run_impl(lines)
+        model = fut.result()
     for l, a, b in zip(lines, impl, model):
         nops = l.count(" ; ") + 1
         corr.count(hash(l), "histories")
@@ -190,6 +194,8 @@ def oracle(run, corr, deep, prop, profiles, n_quick, n_thorough, extra_lines=())
 
 
 def _sched_still_fails(w, a):
+    if isinstance(w.get("scenario"), dict):
+        return _sched_judge(w["scenario"], a) is not None
     parts = a.split(" | ")
     fwd, calls, stale, excs, _, _ = _parse_race(parts[0].split(" ; ")[-1])
     if excs:
@@ -213,7 +219,16 @@ def replay(run, path, prop):
             a = vf.run_lines([vf.PY, SCHED_HARNESS, vf.TRX], [w["history"]])[0]
             print("replay schedule (boundary %s of %s, racing %s): %s" % (w.get("boundary"), w.get("of"), w.get("racing_op"), a[-700:]))
             print("  recorded failure: %s  -- compare the observations above" % w["what"])
-            bad += 1 if ("EXC:" in a or w["what"]) and _sched_still_fails(w, a) else 0
+            try:        # what the interleaving model computes for the same schedule (driver as built by the last run)
+                m = vf.run_driver([w["history"]])[0]
+                ca = sched_canon(a)
+                print("  interleaving model: %s" % ("agrees with the real code on this schedule" if m == ca else
+                                                    "differs: %s" % json.dumps(first_diff(w["history"], ca, m))[:600]))
+            except Exception:
+                pass
+            still = bool(("EXC:" in a or w["what"]) and _sched_still_fails(w, a))
+            print("  still fails" if still else "  passes now")
+            bad += 1 if still else 0
             continue
         j = judge(run, [w["history"]], prop)
         print("replay %s: %s" % (prop, json.dumps(describe(w["history"]))[:1500]))
@@ -360,30 +375,47 @@ def _burst(fn, ver=0, tn=0, n=148, rng=None):
     return bytes([(ver << 4) | tn]) + fn.to_bytes(4, "big") + b"\x00" + bits
 
 
+RACE_KINDS = ["arrival", "arrival", "poweroff", "poweroff-peer", "poweron-peer", "setformat", "setformat-peer",
+              "retune-peer", "mute", "drop"]
+
+
 def sched_scenarios(rng, n):
-    """(setup ops, race op text, info) — bursts are queued only on transceiver `j`"""
+    """(setup ops, race op text, info) — bursts are queued only on transceiver `j`; `k` is the peer (the recipient);
+    in some scenarios a third transceiver (index 2) listens on the same frequency as `k`: two recipients per burst"""
     H = worldgen.H
     out = []
     for _ in range(n):
         j = rng.choice([0, 1])
         k = 1 - j
         ver = rng.choice([0, 0, 1])
+        kver = 1 if rng.random() < 0.5 else 0
+        kind = rng.choice(RACE_KINDS)
+        third = rng.random() < 0.3
         fn0 = rng.choice([rng.randrange(1, H - 3), H - 1, H - 2, 0, 101, 102])
         ops = []
-        for i, (rx, tx) in ((0, (900000, 945000)), (1, (945000, 900000))):
+        tune = [(0, (900000, 945000)), (1, (945000, 900000))]
+        if third:
+            tune.append((2, (tune[k][1][0], 880000)))
+            if rng.random() < 0.5:
+                ops.append(_cmd(2, "CMD SETFORMAT 1\0"))
+        for i, (rx, tx) in tune:
             ops += [_cmd(i, "CMD RXTUNE %d\0" % rx), _cmd(i, "CMD TXTUNE %d\0" % tx)]
             if i == j and ver:
                 ops.append(_cmd(i, "CMD SETFORMAT 1\0"))
-            if i == k and rng.random() < 0.5:
+            if i == k and kver:
                 ops.append(_cmd(i, "CMD SETFORMAT 1\0"))
-            ops.append(_cmd(i, "CMD POWERON\0"))
+            if not (i == k and kind == "poweron-peer"):
+                ops.append(_cmd(i, "CMD POWERON\0"))
+        p = rng.choice([k, 2]) if third else k          # the peer the racing operation addresses
         ops.append("J %d" % fn0)
         fns = []
-        for d in rng.sample([0, 0, -1, -2, 1, 2, 3], rng.randint(1, 4)):
+        ds = rng.sample([0, 0, -1, -2, 1, 2, 3], rng.randint(1, 4))
+        if 0 not in ds and rng.random() < 0.5:
+            ds[rng.randrange(len(ds))] = 0          # more ticks with a due burst: the forward / handle boundaries exist
+        for d in ds:
             f = (fn0 + d) % H
             fns.append(f)
             ops.append("D %d %s" % (j, _burst(f, ver, rng.randint(0, 7), 148, rng).hex()))
-        kind = rng.choice(["arrival", "arrival", "poweroff", "poweroff-peer", "setformat", "mute", "drop"])
         if kind == "arrival":
             f = (fn0 + rng.choice([0, 0, 1, -1, 2])) % H
             race = "D %d %s" % (j, _burst(f, ver, rng.randint(0, 7), 148, rng).hex())
@@ -391,14 +423,20 @@ def sched_scenarios(rng, n):
         elif kind == "poweroff":
             race, info = _cmd(j, "CMD POWEROFF\0"), {"kind": kind}
         elif kind == "poweroff-peer":
-            race, info = _cmd(k, "CMD POWEROFF\0"), {"kind": kind}
+            race, info = _cmd(p, "CMD POWEROFF\0"), {"kind": kind}
+        elif kind == "poweron-peer":
+            race, info = _cmd(k, "CMD POWERON\0"), {"kind": kind}
         elif kind == "setformat":
             race, info = _cmd(j, "CMD SETFORMAT %d\0" % (1 - ver)), {"kind": kind}
+        elif kind == "setformat-peer":
+            race, info = _cmd(k, "CMD SETFORMAT %d\0" % (1 - kver)), {"kind": kind}
+        elif kind == "retune-peer":
+            race, info = _cmd(p, "CMD RXTUNE %d\0" % rng.choice([890000, 945000, 900000])), {"kind": kind}
         elif kind == "mute":
-            race, info = _cmd(rng.choice([j, k]), "CMD RFMUTE 1\0"), {"kind": kind}
+            race, info = _cmd(rng.choice([j, p]), "CMD RFMUTE 1\0"), {"kind": kind}
         else:
-            race, info = _cmd(k, "CMD FAKE_DROP 2\0"), {"kind": kind}
-        info.update({"j": j, "fn0": fn0, "queued": fns, "ver": ver})
+            race, info = _cmd(p, "CMD FAKE_DROP 2\0"), {"kind": kind}
+        info.update({"j": j, "fn0": fn0, "queued": fns, "ver": ver, "head": "sched.run 0 %s | " % ("c:7700/0" if third else "-")})
         out.append((ops, race, info))
     return out
 
@@ -417,62 +455,168 @@ def _parse_race(obs):
             excs.append(it[4:])
         elif it.startswith("points:"):
             points = int(it[7:])
+        elif it.startswith(("at:", "send:")):
+            pass
         elif ">" in it:
             dg += 1
     return fwd, calls, stale, excs, points, dg
 
 
-def sched_oracle(run, corr, deep, n_quick=200, n_thorough=4000):
+def sched_canon(a):
+    """canonical form of a schedule-harness answer for the comparison with the interleaving model: the routing trace
+    (call:/send: items, used by the oracles only) is dropped; everything else is a property-level observable (datagrams
+    of both threads in the order they were sent, stale reports, escaping exceptions per thread, bursts handed to
+    forward_msg with the tick's frame number, final state) or identifies the schedule (at:<boundary>, points:<n>)"""
+    parts = a.split(" | ")
+    obs = []
+    for o in parts[0].split(" ; "):
+        items = [i for i in o.split(",") if not i.startswith(("call:", "send:"))]
+        obs.append(",".join(items) if items else ".")
+    return " | ".join([" ; ".join(obs)] + parts[1:])
+
+
+def sched_run(run, n):
+    """run `n` race scenarios on the real objects: for each, the racing operation at every boundary of the tick
+    (R 0 .. R pts-1), after the tick (R pts), and before it (plain op ; T).  Cached per run."""
+    cache = run.__dict__.setdefault("_sched_cache", {})
+    if n in cache:
+        return cache[n]
+    scen = sched_scenarios(random.Random(run.seed * 31 + 7), n)
+    probe = [info["head"] + " ; ".join(ops + ["R 9999 " + race]) for ops, race, info in scen]
+    before = [info["head"] + " ; ".join(ops + [race, "T"]) for ops, race, info in scen]
+    ans = vf.run_lines([vf.PY, SCHED_HARNESS, vf.TRX], probe + before)
+    ans_probe, ans_before = ans[:len(probe)], ans[len(probe):]
+    lines, meta = [], []
+    for si, ((ops, race, info), a) in enumerate(zip(scen, ans_probe)):
+        if a.startswith(("cfgerr", "HARNESS")):
+            raise vf.HarnessError("schedule harness: %s" % a[:300])
+        pts = _parse_race(a.split(" | ")[0].split(" ; ")[-1])[4]
+        for k in range(pts + 1):
+            lines.append(info["head"] + " ; ".join(ops + ["R %d %s" % (k, race)]))
+            meta.append((info, k, pts, si))
+    impl = vf.run_lines([vf.PY, SCHED_HARNESS, vf.TRX], lines)
+    for a in impl + ans_before:
+        if a.startswith(("cfgerr", "HARNESS")):
+            raise vf.HarnessError("schedule harness: %s" % a[:300])
+    d = {"scen": scen, "lines": lines, "meta": meta, "impl": impl, "before_lines": before, "before": ans_before}
+    cache[n] = d
+    return d
+
+
+def _sched_outcome(a, nlast):
+    """what a schedule produced, independent of the order of the two threads' sends: datagrams (multiset), stale
+    reports, bursts handed to forward_msg, exceptions, final state; `nlast` = number of trailing ops that make up the
+    pair (1 for `R k op`, 2 for `op ; T`)"""
+    parts = sched_canon(a).split(" | ")
+    items = []
+    stale = 0
+    for o in parts[0].split(" ; ")[-nlast:]:
+        for it in o.split(","):
+            if it.startswith("stale:"):
+                stale += int(it[6:])
+            elif it == "." or it.startswith(("at:", "points:")):
+                pass
+            else:
+                items.append(it.replace("EXC:clock:", "EXC:").replace("EXC:socket:", "EXC:"))
+    return (tuple(sorted(items)), stale, parts[-1])
+
+
+def sched_correspond(run, corr, n_quick=260, n_thorough=4000):
+    """differential tie of the interleaving model: every forced schedule that is run on the real objects is also
+    computed by `Sched.exec` (driver verb sched.run) and compared"""
+    n = run.scale(n_quick, n_thorough)
+    d = sched_run(run, n)
+    lines = d["lines"] + d["before_lines"]
+    impl = d["impl"] + d["before"]
+    model = vf.run_driver(lines)
+    dist = corr.distribution
+    nbad = 0
+    for l, a, b in zip(lines, impl, model):
+        corr.count(hash(l), "schedules: forced on the real objects and computed by the interleaving model")
+        ca = sched_canon(a)
+        if ca != b:
+            nbad += 1
+            if len(corr.disagreements) < 20:
+                corr.disagreements.append({"request": l, "impl": ca, "model": b, "first_diff": first_diff(l, ca, b)})
+    # distribution: where the operation ran, what raced, how many schedules are not equivalent to a sequential order
+    by_kind, by_at, differ, differ_kind = {}, {}, 0, {}
+    after = {}
+    for (info, k, pts, si), a in zip(d["meta"], d["impl"]):
+        if k == pts:
+            after[si] = _sched_outcome(a, 1)
+    for (info, k, pts, si), a in zip(d["meta"], d["impl"]):
+        at = [it[3:] for it in a.split(" | ")[0].split(" ; ")[-1].split(",") if it.startswith("at:")]
+        at = at[0] if at else "?"
+        by_at[at] = by_at.get(at, 0) + 1
+        by_kind[info["kind"]] = by_kind.get(info["kind"], 0) + 1
+        o = _sched_outcome(a, 1)
+        if o != after.get(si) and o != _sched_outcome(d["before"][si], 2):
+            differ += 1
+            key = "%s @ %s" % (info["kind"], at)
+            differ_kind[key] = differ_kind.get(key, 0) + 1
+    dist["schedules: race scenarios"] = len(d["scen"])
+    dist["schedules: by boundary the operation ran at"] = by_at
+    dist["schedules: by racing operation"] = by_kind
+    dist["schedules: outcome differs from both sequential orders (op;tick and tick;op)"] = differ
+    dist["schedules: ... by racing operation @ boundary"] = differ_kind
+    dist["schedules: model/code disagreements"] = nbad
+    corr.samples += [{"request": l[-400:], "impl": sched_canon(a)[:400]} for l, a in list(zip(d["lines"], d["impl"]))[:2]]
+    corr.rule += ("; a schedule case is one race scenario (two tuned transceivers, 1..4 queued bursts around the clock value, one racing "
+                  "operation: arrival / POWEROFF of sender or peer / POWERON of peer / SETFORMAT of sender or peer / RXTUNE of peer / RFMUTE / "
+                  "FAKE_DROP) with the operation executed at one boundary of the real tick (pre-tick, pre-lock, post-lock, pre-forward, "
+                  "pre-handle), after the tick, or before it: datagrams of both threads in sending order, stale reports, exceptions per "
+                  "thread, bursts handed to forward_msg with the tick's frame, the boundary reached, the number of boundaries and the "
+                  "final state are compared between the real code and Sched.exec")
+    return nbad
+
+
+def _sched_judge(info, a):
+    """the C03 oracle on the answer of the real code for one forced schedule: None, or what is violated"""
+    parts = a.split(" | ")
+    fwd, calls, stale, excs, _, _ = _parse_race(parts[0].split(" ; ")[-1])
+    st = parts[2].split(" # ")
+    j = info["j"]
+    f = st[j].split()
+    q = f[-1][1:]
+    qend = 0 if q == "-" else len(q.split("/"))
+    running = f[0] == "R1"
+    fn0 = info["fn0"]
+    acc = list(info["queued"]) + ([info["fn"]] if info["kind"] == "arrival" else [])
+    w = None
+    if excs:
+        w = "exception %s while the operation raced the tick" % excs
+    elif any(s != j or bfn != tfn or tfn != fn0 for (s, bfn, tfn) in fwd):
+        w = "a burst was put on the air outside its own frame: %s (tick %d)" % (fwd, fn0)
+    elif len(fwd) > sum(1 for x in acc if x == fn0):
+        w = "more transmissions (%d) than bursts due in frame %d (%d)" % (len(fwd), fn0, sum(1 for x in acc if x == fn0))
+    elif info["kind"] == "poweroff":
+        if qend != 0 or running:
+            w = "after POWEROFF the transceiver still holds %d queued burst(s) (running=%s)" % (qend, running)
+    else:
+        if len(fwd) + stale + qend != len(acc):
+            w = "a burst vanished or was duplicated: accepted %d = forwarded %d + stale %d + queued %d does not hold" % (
+                len(acc), len(fwd), stale, qend)
+        elif len(fwd) < sum(1 for x in info["queued"] if x == fn0):
+            w = "a burst queued before the tick for frame %d was not transmitted in it" % fn0
+    return w
+
+
+def sched_oracle(run, corr, deep, n_quick=260, n_thorough=4000):
     """every interleaving position of ONE socket-thread operation against ONE tick, on the real objects:
     no exception in either thread; bursts are forwarded only in their own frame and at most once;
     without a power-off of the sender nothing vanishes (accepted = forwarded + stale + still queued);
     after a power-off of the sender its queue is empty."""
     n = run.scale(n_quick, n_thorough) * (3 if deep else 1)
     H = worldgen.H
-    scen = sched_scenarios(random.Random(run.seed * 31 + 7), n)
-    head = "sched.run 0 - | "
-    probe = [head + " ; ".join(ops + ["R 9999 " + race]) for ops, race, _ in scen]
-    ans = vf.run_lines([vf.PY, SCHED_HARNESS, vf.TRX], probe)
-    lines, meta = [], []
-    for (ops, race, info), a in zip(scen, ans):
-        if a.startswith(("cfgerr", "HARNESS")):
-            raise vf.HarnessError("schedule harness: %s" % a[:300])
-        pts = _parse_race(a.split(" | ")[0].split(" ; ")[-1])[4]
-        for k in range(pts + 1):
-            lines.append(head + " ; ".join(ops + ["R %d %s" % (k, race)]))
-            meta.append((info, k, pts))
-    ans = vf.run_lines([vf.PY, SCHED_HARNESS, vf.TRX], lines)
+    d = sched_run(run, n)
+    scen, lines, ans, meta = d["scen"], d["lines"], d["impl"], d["meta"]
     found = 0
-    for l, a, (info, k, pts) in zip(lines, ans, meta):
-        parts = a.split(" | ")
-        fwd, calls, stale, excs, _, _ = _parse_race(parts[0].split(" ; ")[-1])
-        st = parts[2].split(" # ")
-        j = info["j"]
-        f = st[j].split()
-        q = f[-1][1:]
-        qend = 0 if q == "-" else len(q.split("/"))
-        running = f[0] == "R1"
-        fn0 = info["fn0"]
-        acc = list(info["queued"]) + ([info["fn"]] if info["kind"] == "arrival" else [])
-        w = None
-        if excs:
-            w = "exception %s while the operation raced the tick" % excs
-        elif any(s != j or bfn != tfn or tfn != fn0 for (s, bfn, tfn) in fwd):
-            w = "a burst was put on the air outside its own frame: %s (tick %d)" % (fwd, fn0)
-        elif len(fwd) > sum(1 for x in acc if x == fn0):
-            w = "more transmissions (%d) than bursts due in frame %d (%d)" % (len(fwd), fn0, sum(1 for x in acc if x == fn0))
-        elif info["kind"] == "poweroff":
-            if qend != 0 or running:
-                w = "after POWEROFF the transceiver still holds %d queued burst(s) (running=%s)" % (qend, running)
-        else:
-            if len(fwd) + stale + qend != len(acc):
-                w = "a burst vanished or was duplicated: accepted %d = forwarded %d + stale %d + queued %d does not hold" % (
-                    len(acc), len(fwd), stale, qend)
-            elif len(fwd) < sum(1 for x in info["queued"] if x == fn0):
-                w = "a burst queued before the tick for frame %d was not transmitted in it" % fn0
+    for l, a, (info, k, pts, _) in zip(lines, ans, meta):
+        w = _sched_judge(info, a)
         if w is not None:
             found += run.report_witness({"kind": "schedule", "property": "C03", "what": w, "boundary": k, "of": pts,
-                                         "racing_op": info["kind"], "history": l, "readable": describe(l.replace("R %d " % k, ""))})
+                                         "racing_op": info["kind"], "scenario": info, "history": l,
+                                         "readable": describe(l.replace("R %d " % k, ""))})
             if found >= 3:
                 break
     corr.distribution["oracle(C03): race scenarios"] = len(scen)
